@@ -54,6 +54,10 @@ pub fn pick_yields(rng: &mut Rng) -> Vec<String> {
     if rng.chance(1, 6) {
         v.push("other_user".into());
     }
+    // scheduler knob: threads held back right before synchronisation operations
+    if rng.chance(1, 6) {
+        v.push("sync_delay".into());
+    }
     v
 }
 
